@@ -78,9 +78,12 @@ def run(cmd, cwd=None, timeout=None, env=None):
 
 
 def translate():
-    """(T) regenerate lean/Cellml/Generated/Tables.lean from /repo's current source text."""
+    """(T) regenerate lean/Cellml/Generated/Tables.lean and Generated/Code/*.lean from /repo's current source text."""
     rc, out = run([sys.executable, os.path.join(HERE, 'translate_tables.py')])
-    return rc == 0, out
+    # (T2) regenerate lean/Cellml/Generated/Code/*.lean from the CODE of the translated functions; a function the
+    # translator cannot handle leaves its definition out, so the tie theorem naming it fails to build (reported there)
+    rc2, out2 = run([sys.executable, os.path.join(HERE, 'translate_code.py')])
+    return rc == 0 and rc2 == 0, out + out2
 
 
 def lake_build(targets):
